@@ -162,7 +162,8 @@ def cal_side(ctx, tier, only=None):
     jobs = [{'id': c.name, 'tier': tier} for c in cfgs]
     results = calrun.run_jobs(calflow.cal_worker, jobs, par=max(1, core.NCPU - 1), timeout=600 if tier == 'quick' else 3000, mem_gb=10)
     # apply on a selection of the calibration's frequency points (1-port types; 2-port systems with symbolic terms at 3 frequencies do not finish)
-    gjobs = [{'id': 'applygrid-%s-%s' % (calflow.NAMES[t], g), 'type': t, 'n': 1, 'grid': g} for t in (calflow.T8, calflow.U8, calflow.TE10, calflow.UE10) for g in calflow.APPLY_GRIDS]
+    gjobs = [{'id': 'applygrid-%s-%s' % (calflow.NAMES[t], g), 'type': t, 'n': 1, 'grid': g} for t in (calflow.T8, calflow.U8, calflow.TE10, calflow.UE10) for g in calflow.APPLY_GRIDS
+             if not g.startswith('between')]      # between the points _vnacal_rfi adds its regulariser EPS = 1e-25 to every tableau entry: no exact identity exists there (not registered)
     gjobs = [j for j in gjobs if not only or only in j['id']]
     gres = calrun.run_jobs(calflow.apply_grid_worker, gjobs, par=max(1, core.NCPU - 1), timeout=600, mem_gb=8) if gjobs else []
     native = calrun.Native(ctx)
